@@ -97,7 +97,21 @@ def rule_dof_guard(F, ev, R, config, rule="R-DOF-GUARD", checked=True):
         want = ("Lt", tot, n)
         rels, raw = g.relations_at(bi)
         if form == "checked_sub":
-            okc = True  # presence of the payload is the guard
+            # Some(N − total) only tells N ≥ total; N > total needs a positivity test of the difference
+            okc = False
+            for c in ev.ctx.assumed:
+                if c[0] == "pred":
+                    r = canon_rel(c[1], True)
+                    if r and r[0] in ("Lt", "Ne") and ("const", "usize", 0) in (r[1], r[2]):
+                        other = r[2] if r[1] == ("const", "usize", 0) else r[1]
+                        if other == dof or (other[0] == "payload" and other == dof):
+                            okc = True
+                    if r and r[0] == "Le" and r[1] == ("const", "usize", 1) and r[2] == dof:
+                        okc = True
+            for r in rels:
+                if r in (("Lt", ("const", "usize", 0), dof), ("Ne", ("const", "usize", 0), dof), ("Ne", dof, ("const", "usize", 0)), ("Le", ("const", "usize", 1), dof)):
+                    okc = True
+            okc = okc or want in rels
         else:
             okc = want in rels
         R.add(rule, config, b.key, "success-needs-N>M+P", okc,
@@ -128,6 +142,13 @@ def rule_dof_guard(F, ev, R, config, rule="R-DOF-GUARD", checked=True):
                     if r2 == ("Le", n, tot):
                         edges.append(g.bool_edges(sw, False))
                 okk = bool(edges) and g.holds_on_all_paths_to(ebi, edges)
+                if not okk:
+                    # Err(Underdetermined) as the `ok_or` alternative of the checked subtraction
+                    cons = consumers(b, es["place"]["l"])
+                    if len(cons) == 1 and cons[0]["kind"] == "call" and cons[0]["cid"].rsplit("::", 1)[-1] in ("ok_or",):
+                        recv = ev.operand(env, cons[0]["term"]["args"][0], (cons[0]["block"], None))
+                        if contains(recv, lambda x: x[0] == "call" and x[1].endswith("checked_sub") and x[3] == (n, tot)):
+                            okk = True
                 R.add(rule, config, b.key, "underdetermined-iff", okk,
                       "" if okk else "Err(Underdetermined) can be produced without N ≤ M+P", es.get("span"))
     R.floor(rule, config, 3, "dof term, success guard, Underdetermined mapping")
